@@ -104,6 +104,11 @@ pub fn corpus() -> Result<Vec<Sample>, String> {
         }
         v.push(Sample { name: format!("rustls-sni{}-alpn{}", sni.len(), alpn.len()), random: Some(hello[11..43].to_vec()), bytes: hello.clone(), must_find: true });
         if sni == "m.t" {
+            for ver in [[3u8, 0u8], [3, 2], [3, 3], [3, 4]] {
+                let mut h = hello.clone();
+                h[1..3].copy_from_slice(&ver);
+                v.push(Sample { name: format!("record-version-{:02x}{:02x}", ver[0], ver[1]), random: Some(hello[11..43].to_vec()), bytes: h, must_find: true });
+            }
             let p4k = pad_hello(&hello, 4000);
             v.push(Sample { name: "rustls-padded-4k".into(), random: Some(p4k[11..43].to_vec()), bytes: p4k, must_find: true });
             let p17k = pad_hello(&hello, 17000);
@@ -202,20 +207,32 @@ pub struct HsCase {
     pub cuts: Vec<usize>,
 }
 
-fn hs_samples() -> Vec<(&'static str, &'static str, Vec<&'static [u8]>, usize)> {
-    // (name, sni, alpn, padding)
-    vec![("plain", "m.t", vec![b"h2"], 0), ("no-alpn-short-sni", "a", vec![], 0), ("padded-4k", "m.t", vec![b"h2", b"http/1.1"], 4000), ("padded-17k", "m.t", vec![b"http/1.1"], 17000)]
+fn hs_samples() -> Vec<(&'static str, &'static str, Vec<&'static [u8]>, usize, Option<[u8; 2]>)> {
+    // (name, sni, alpn, padding, legacy record version written over the one rustls sends)
+    vec![
+        ("plain", "m.t", vec![b"h2"], 0, None),
+        ("no-alpn-short-sni", "a", vec![], 0, None),
+        ("padded-4k", "m.t", vec![b"h2", b"http/1.1"], 4000, None),
+        ("padded-17k", "m.t", vec![b"http/1.1"], 17000, None),
+        // the record layer version of a ClientHello is a legacy field that stacks fill differently
+        ("record-version-0303", "m.t", vec![b"h2"], 0, Some([3, 3])),
+        ("record-version-0300", "a", vec![], 0, Some([3, 0])),
+    ]
 }
 
 async fn handshake_case(c: &HsCase) -> Result<&'static str, Violation> {
     let case = json!({"kind":"handshake","case":c});
-    let (name, sni, alpn, pad) = hs_samples().into_iter().find(|s| s.0 == c.sample).ok_or_else(|| Violation::new("C12:machinery", "unknown sample", json!({})))?;
+    let (name, sni, alpn, pad, recver) = hs_samples().into_iter().find(|s| s.0 == c.sample).ok_or_else(|| Violation::new("C12:machinery", "unknown sample", json!({})))?;
     let mk = |sig: &str, what: String| Violation::new(format!("C12:{sig}:{name}:{}", match c.cuts.len() { 0 => "uncut", 1 => "1-cut", 2 => "2-cut", _ => "byte-at-a-time" }), format!("{what}; sample {name}, cuts {:?}", if c.cuts.len() > 4 { vec![] } else { c.cuts.clone() }), case.clone());
     let (mut conn, hello0) = new_client(sni, &alpn).map_err(|e| Violation::new("C12:machinery", e, json!({})))?;
     // padding changes the transcript, so it cannot be applied to a live rustls client: padded
     // samples are only used up to the point where the server has parsed the hello
     let padded = pad > 0;
-    let hello = if padded { pad_hello(&hello0, pad) } else { hello0.clone() };
+    let mut hello = if padded { pad_hello(&hello0, pad) } else { hello0.clone() };
+    if let Some(v) = recver {
+        // not part of the handshake transcript: the live client state stays valid
+        hello[1..3].copy_from_slice(&v);
+    }
     let want_random = hello[11..43].to_vec();
     let listener = tokio::net::TcpListener::bind("127.0.0.1:0").await.map_err(|e| Violation::new("C12:machinery", e.to_string(), json!({})))?;
     let addr = listener.local_addr().unwrap();
@@ -483,12 +500,13 @@ pub fn run(tier: Tier) -> i32 {
     }
     // handshake cases
     let mut cases: Vec<HsCase> = vec![];
-    for (name, sni, alpn, pad) in hs_samples() {
+    for (name, sni, alpn, pad, recver) in hs_samples() {
+        let reduced = pad > 0 || recver.is_some();
         let (_, h) = new_client(sni, &alpn).unwrap();
         let len = if pad > 0 { pad_hello(&h, pad).len() } else { h.len() };
         let rec_end = len.min(5 + 16384);
         cases.push(HsCase { sample: name.into(), cuts: vec![] });
-        let pts: Vec<usize> = if pad == 0 {
+        let pts: Vec<usize> = if !reduced {
             (1..len).collect()
         } else {
             let mut p: Vec<usize> = vec![1, 4, 5, 6, 9, 10, 11, 12, 42, 43, 44, 1023, 1024, 1025, 2048, len / 2, rec_end - 1, rec_end, rec_end + 1, rec_end + 5, len - 1, 16383, 16384, 16385];
@@ -501,7 +519,7 @@ pub fn run(tier: Tier) -> i32 {
             cases.push(HsCase { sample: name.into(), cuts: vec![*a] });
         }
         let structural: Vec<usize> = [1usize, 5, 6, 9, 11, 12, 43, 44, rec_end - 1, len - 1].into_iter().filter(|x| *x > 0 && *x < len).collect();
-        let two: Vec<usize> = if tier == Tier::Thorough && pad == 0 { pts.clone() } else { structural };
+        let two: Vec<usize> = if tier == Tier::Thorough && !reduced { pts.clone() } else { structural };
         for (i, a) in two.iter().enumerate() {
             for b in &two[i + 1..] {
                 cases.push(HsCase { sample: name.into(), cuts: vec![*a, *b] });
@@ -529,7 +547,7 @@ pub fn run(tier: Tier) -> i32 {
     }
     rep.sub.push(json!({"sub":"accept-path-wiring","scenarios":WIRING.len()}));
     rep.cov("exhaustive", r.completed);
-    rep.cov("rule", "extractor on every prefix of 13 real/synthetic first flights; real TLS handshakes (rustls client, production listener/acceptor) with the first flight cut at every byte position (plain hellos) or at structural positions (4 KiB / 17 KiB padded), structural 2-cuts (all 2-cuts in thorough), byte-at-a-time; 6 accept-path wiring scenarios");
+    rep.cov("rule", "extractor on every prefix of 17 real/synthetic first flights (incl. legacy record versions 0300/0302/0303/0304); real TLS handshakes (rustls client, production listener/acceptor) with the first flight cut at every byte position (plain hellos) or at structural positions (4 KiB / 17 KiB padded), structural 2-cuts (all 2-cuts in thorough), byte-at-a-time; 6 accept-path wiring scenarios");
     rep.sample(json!({"sample":"plain","cuts":[11, 43]}));
     rep.assume("ClientHellos come from rustls 0.21 (boring's post-quantum key shares are represented by the 4 KiB / 17 KiB padded variants); the QUIC half (value of the completed handshake) is not driven");
     super::cq::c12_into(&mut rep, tier);
